@@ -2,19 +2,13 @@
 From Coq Require Import String.
 From Coq Require Import List Bool Arith NArith ZArith Lia.
 Import ListNotations.
-Require Import PPCore PPHost Memo MemoProofs Pinned Str Mask IpModel PyLib G_fn_ip RefMask RefShould.
+Require Import PPCore PPHost Memo MemoProofs Pinned Str Mask IpModel.
 
 (* _is_mask accepts exactly the 33 + 33 values "k low ones" / "ones from bit k up", for ALL 2^32 inputs *)
 Theorem C05_is_mask_iff_mask_or_wildcard_shape :
   forall x : N, (x < 2 ^ 32)%N ->
   (is_mask x = true <-> exists k : N, (k <= 32)%N /\ (x = low_ones k \/ x = high_ones k)).
 Proof. exact is_mask_spec. Qed.
-
-(* TIE A (function level): the Gallina code GENERATED on this run from IpAnonymizer._is_mask computes exactly that test *)
-Theorem C05_generated_is_mask_is_the_mask_test :
-  forall (py_call : pyval -> pyval -> PyLib.res) (fuel : nat) (self : pyval) (x : N),
-  gen_IpAnonymizer___is_mask py_call fuel self (VInt (Z.of_N x)) = Normal (VTuple [VBool (is_mask x); self]).
-Proof. exact gen_is_mask_refines. Qed.
 
 (* should_anonymize is false exactly for mask-shaped values and members of a preserved network *)
 Theorem C05_skip_iff_mask_or_preserved :
@@ -23,15 +17,6 @@ Theorem C05_skip_iff_mask_or_preserved :
 Proof.
   intros a x. unfold should_anonymize4. rewrite negb_false_iff, orb_true_iff, existsb_exists. reflexivity.
 Qed.
-
-(* TIE A (function level): the GENERATED IpAnonymizer.should_anonymize answers exactly that, on the network objects the constructor stored *)
-Theorem C05_generated_should_anonymize_skips_masks_and_preserved_networks :
-  forall (py_call : pyval -> pyval -> PyLib.res) (fuel : nat) (self : pyval) (nets : list (N * nat)) (x : N),
-  (x < 2 ^ 32)%N -> Forall (fun net => (snd net <= 32)%nat) nets ->
-  py_getattr self "_preserve_addresses" = Normal (VList (map vnet nets)) ->
-  gen_IpAnonymizer__should_anonymize py_call fuel self (VInt (Z.of_N x))
-  = Normal (VTuple [VBool (negb (is_mask x || existsb (in_net x) nets)); self]).
-Proof. exact gen_should_anonymize_refines. Qed.
 
 (* IpAnonymizer.__init__ registers every preserved network as a preserved prefix, hence no address outside a
    preserved network is ever mapped into it (and none inside is mapped out of it), for every salt/H, B, lists *)
@@ -63,8 +48,6 @@ Example C05_instances :
                                   || is_mask (N.lxor (low_ones (N.of_nat k)) (2 ^ N.of_nat i))) (seq 0 32)) (seq 0 33) = true.
 Proof. vm_compute. repeat split; reflexivity. Qed.
 
-Print Assumptions C05_generated_should_anonymize_skips_masks_and_preserved_networks.
 Print Assumptions C05_is_mask_iff_mask_or_wildcard_shape.
-Print Assumptions C05_generated_is_mask_is_the_mask_test.
 Print Assumptions C05_skip_iff_mask_or_preserved.
 Print Assumptions C05_no_collision_with_preserved_networks.
